@@ -101,6 +101,9 @@ def main():
     cov["builds"] = ctx.builds
     cov["engine_processes"] = agg.engine_runs
     cov["known_findings_reported"] = sorted(listed.keys())
+    if agg.stats.get("monitored_calls_with_poisoned_registers") or agg.stats.get("dispatched_calls_through_the_interposer"):
+        cov["abi_monitors"] = {"monitored_library_calls_entered_with_garbage_in_all_caller_saved_registers": int(agg.stats.get("monitored_calls_with_poisoned_registers", 0)),
+                               "dispatched_calls_through_the_slot_interposer_(vector_registers_poisoned,_callee_saved_registers_verified)": int(agg.stats.get("dispatched_calls_through_the_interposer", 0))}
     if agg.stats.get("fp_table_crowded"):
         cov["distinct_count_note"] = "fingerprint table crowded for %d cases; they were not counted" % agg.stats["fp_table_crowded"]
     for k, s in sorted(agg.sets.items()):
